@@ -193,6 +193,26 @@ inductive Fits (enc : Enc) : Ty → Node → Prop where
       (∀ k o v, (k, o, v) ∈ dfs → ∀ i t, lookupIdx (decode enc k) fs 0 = some (i, t) → Fits enc t v) →
       Fits enc (.st fs) (.obj dfs)
 
+/-- `Fits` as the tape path needs it (and therefore the agreement of the two paths).  The flag says
+whether the value is in field position: `Property` captures an operator only there (an array element
+has none: the tape path then reads the target as a map, the streaming path invents `=`); a header
+value in field position is read with a scalar target other than `any`, or ignored (with `any` the tape
+path presents the body, the streaming path the name: finding `text-reader-header`). -/
+inductive FitsT (enc : Enc) : Bool → Ty → Node → Prop where
+  | scalar {b : Bool} {ty : Ty} {l : Leaf} : Ty.isPlainScalar ty = true → FitsT enc b ty (.leaf l)
+  | hdrScalar {b : Bool} {ty : Ty} {n : Bytes} {body : Node} : Ty.isPlainScalar ty = true → ty ≠ .any →
+      FitsT enc b ty (.hdr n body)
+  | ign {b : Bool} {v : Node} : FitsT enc b .ign v
+  | opt {b : Bool} {t : Ty} {v : Node} : FitsT enc b t v → FitsT enc b (.opt t) v
+  | prop {t : Ty} {v : Node} : FitsT enc false t v → FitsT enc true (.prop t) v
+  | seq {b : Bool} {t : Ty} {vs : List Node} :
+      (∀ v, v ∈ expandNodes vs → FitsT enc false t v) → FitsT enc b (.seq t) (.arr vs)
+  | map {b : Bool} {t : Ty} {dfs : List (Bytes × Op × Node)} :
+      (∀ k o v, (k, o, v) ∈ dfs → FitsT enc true t v) → FitsT enc b (.map t) (.obj dfs)
+  | st {b : Bool} {fs : List (Bytes × Ty)} {dfs : List (Bytes × Op × Node)} :
+      (∀ k o v, (k, o, v) ∈ dfs → ∀ i t, lookupIdx (decode enc k) fs 0 = some (i, t) → FitsT enc true t v) →
+      FitsT enc b (.st fs) (.obj dfs)
+
 /-! ### parser outputs a document stands for -/
 
 def Leaf.rtok (l : Leaf) : RTok := if l.quoted then .quo l.bytes else .unq l.bytes
